@@ -1,6 +1,7 @@
 package h
 
 import (
+	"encoding/json"
 	"fmt"
 	"strconv"
 
@@ -10,7 +11,62 @@ import (
 )
 
 func init() {
-	rt.Register("C16", rt.Harness{Run: runC16, Replay: replayChunk(ChunkOpts{KeepLog: true})})
+	rt.Register("C16", rt.Harness{Run: runC16, Replay: replayC16})
+}
+
+// entrySizes: every entry a scenario offered the backend has the size its client key's length
+// dictates (the per-command counts are the explorer's business; this is what a replay re-checks).
+func entrySizes(log []fakemc.ReqLog) (clause, detail string) {
+	for _, lg := range log {
+		if lg.Op != fakemc.OpSet && lg.Op != fakemc.OpAdd && lg.Op != fakemc.OpReplace {
+			continue
+		}
+		ck, role, ok := ownerOf(lg.Key)
+		switch {
+		case !ok:
+			return "foreign-request", fmt.Sprintf("entry %q is not derived from a client key", lg.Key)
+		case role == "meta" && lg.ValLen != metaLen:
+			return "meta-size", fmt.Sprintf("metadata entry of %d bytes (expected constant %d)", lg.ValLen, metaLen)
+		case role != "meta" && lg.ValLen != slabBudget-71-len(ck):
+			return "chunk-size-varies", fmt.Sprintf("data entry %q offered with %d bytes, the size for key length %d is %d", lg.Key, lg.ValLen, len(ck), slabBudget-71-len(ck))
+		case len(lg.Key)+lg.ValLen+itemOverhead > slabBudget:
+			return "slab-budget", fmt.Sprintf("entry %q: key %d + value %d + %d overhead > %d", lg.Key, len(lg.Key), lg.ValLen, itemOverhead, slabBudget)
+		}
+	}
+	return "", ""
+}
+
+func replayC16(c *rt.Ctx, raw json.RawMessage) string {
+	var sc ChunkScenario
+	if err := json.Unmarshal(raw, &sc); err != nil {
+		return "bad scenario: " + err.Error()
+	}
+	o := ChunkOpts{KeepLog: true}
+	if len(sc.Faults) > 0 || sc.Lossy {
+		o.NoModel, o.NoPhys = true, true
+	}
+	var r *ChunkResult
+	cl, d := "", ""
+	InBubble(c.T, func() {
+		r = RunChunk(sc, o)
+		cl, d = entrySizes(r.Store.Log)
+	})
+	out := ""
+	for i, op := range sc.Ops {
+		out += fmt.Sprintf("  %d: %s\n", i, op)
+	}
+	out += fmt.Sprintf("faults: %v\nresults: %v\n", sc.Faults, r.Results)
+	if len(r.Findings) == 0 && cl == "" {
+		return out + "OK: no finding"
+	}
+	s := "VIOLATION reproduced:\n"
+	for _, f := range r.Findings {
+		s += "  " + f.Sig + " :: " + f.What + "\n"
+	}
+	if cl != "" {
+		s += "  C16 " + cl + " :: " + d + "\n"
+	}
+	return s + out
 }
 
 // checkChunkDiscipline inspects the set requests the fake backend received for one client key.
@@ -301,6 +357,67 @@ func runC16(c *rt.Ctx) {
 						}
 						if clause != "" {
 							c.Violation("C16 "+clause+" mixed-key-lengths", fmt.Sprintf("one connection, key lengths %d then %d, command %d (%s, key length %d, value length %d): %s", kl1, kl2, bad, kinds[bad], len(keys[bad]), vlens[bad], detail), sc)
+						}
+					}
+				}
+			}
+		}
+	}
+	// (e) the backend refuses one request of a set with a transient status (out of memory, busy,
+	// temporary failure, item too large): whatever the handler does next (give up, try again), every
+	// entry it offers the backend still has the one size of its key length
+	for _, kl := range []int{1, 64, 250} {
+		item++
+		if !c.Mine(item) {
+			continue
+		}
+		p := payloadFor(kl)
+		kb := wire.GenValue(kl, kl*9+5)
+		for i := range kb {
+			kb[i] = 'a' + kb[i]%26
+		}
+		key := string(kb)
+		for _, n := range []int{1, 2, 3} {
+			for _, vlen := range []int{n * p, (n-1)*p + 1} {
+				for j := 0; j <= n; j++ {
+					for _, stt := range []uint16{0x82, 0x85, 0x86, 0x03} {
+						for _, kind := range []string{"set", "add"} {
+							ops := []wire.Op{{Kind: kind, Key: key, VGen: true, VLen: vlen, VSeed: vlen + j, Flags: 1}, {Kind: "set", Key: key, VGen: true, VLen: vlen, VSeed: vlen + j + 1, Flags: 2}}
+							sc := ChunkScenario{Harness: "C16", Ops: ops, Lossy: true, Faults: map[int]fakemc.Fault{j: {Kind: fakemc.FStatus, Status: stt}}}
+							var r *ChunkResult
+							clause, detail := "", ""
+							InBubble(c.T, func() {
+								r = RunChunk(sc, ChunkOpts{KeepLog: true, NoModel: true, NoPhys: true})
+								for _, lg := range r.Store.Log {
+									if lg.Op != fakemc.OpSet && lg.Op != fakemc.OpAdd && lg.Op != fakemc.OpReplace {
+										continue
+									}
+									ck, role, ok := ownerOf(lg.Key)
+									switch {
+									case !ok || ck != key:
+										clause, detail = "foreign-request", fmt.Sprintf("entry %q offered while writing a key of length %d", lg.Key, kl)
+									case role == "meta" && lg.ValLen != metaLen:
+										clause, detail = "meta-size", fmt.Sprintf("metadata entry of %d bytes (expected constant %d)", lg.ValLen, metaLen)
+									case role != "meta" && lg.ValLen != slabBudget-71-kl:
+										clause, detail = "chunk-size-varies", fmt.Sprintf("data entry %q offered with %d bytes, the size for key length %d is %d", lg.Key, lg.ValLen, kl, slabBudget-71-kl)
+									case len(lg.Key)+lg.ValLen+itemOverhead > slabBudget:
+										clause, detail = "slab-budget", fmt.Sprintf("entry %q: key %d + value %d + %d overhead > %d", lg.Key, len(lg.Key), lg.ValLen, itemOverhead, slabBudget)
+									}
+									if clause != "" {
+										return
+									}
+								}
+							})
+							c.Eval(1)
+							c.Trace(1)
+							c.Distinct(fmt.Sprintf("refused|%d|%d|%d|%#x|%s", kl, vlen, j, stt, kind))
+							c.Nontrivial(fmt.Sprintf("refused|%d|%d|%d|%#x|%s", kl, vlen, j, stt, kind))
+							for _, f := range r.Findings {
+								c.Violation(f.Sig, f.What, sc)
+							}
+							if clause != "" {
+								c.Violation("C16 "+clause+" after-refused-request", fmt.Sprintf("key length %d, value length %d, backend request %d of the %s answered with status %#x: %s", kl, vlen, j, kind, stt, detail), sc)
+							}
 						}
 					}
 				}
